@@ -12,13 +12,14 @@ META = {
              "dims, and every requested output is obtainable from the supplied inputs -- i.e. each class of invalid "
              "request yields Err. The model is tied to the code by running both on sequences of valid and invalid "
              "requests (cold and warm plan cache) and comparing outcome, error kind and executed operator sequence "
-             "inside Coq; the implementation's answers are also checked against an independent classification of "
-             "requests (invalid => Err, never Panic)."),
+             "inside Coq; the implementation's answers are also checked by a reflected oracle (never Panic/hang; Ok only if "
+             "the inputs validate, ids are distinct value nodes and the executed sequence is a valid plan for the request)."),
     "note": ("Partial: operator kernels are not modelled (the harness uses a test operator that accepts every input), so "
              "panics inside kernels on well-typed but odd inputs are out of scope; refcount-driven freeing in run_plan "
-             "is abstracted (values stay available), which is C02's subject. Model::run adds only the RTEN_TIMING "
-             "environment lookup to Graph::run; the check drives Graph::run/partial_run through the hook because Model's "
-             "fields are private. Findings F12 (duplicate ids hit the plan cache and panicked) and F20 (partial_run listed "
+             "is abstracted (values stay available), which is C02's subject. Two drivers: arbitrary test graphs through the "
+             "hook (Graph::run / Graph::partial_run, which Model::run / Model::partial_run delegate to), and the PUBLIC API "
+             "(Model::load on hand-encoded ONNX bytes, then Model::run / Model::partial_run with real Add/Relu/Identity "
+             "kernels, inputs kept kernel-compatible). Findings F12 (duplicate ids hit the plan cache and panicked) and F20 (partial_run listed "
              "an output twice and panicked) are fixed in the tree the model describes."),
     "technique": "Coq proof (cache invariant + plan validity => run_plan bookkeeping cannot fail) + model/implementation correspondence",
 }
@@ -37,7 +38,7 @@ def main(ctx):
                 "missing / extra inputs, constant as input, dtype / sequence / rank / dim mismatch, permutations, inputs or "
                 "constants as outputs, partial_run, the F12 shapes [a,a,b] after {a,b,c}) applied cold (first request) and warm "
                 "(after a successful run); random part: 0-2 mutations per request. non-trivial = every case")
-    ctx.trusted += ["operator kernels are not modelled: test operator of the hook (sums its inputs)",
+    ctx.trusted += ["operator kernels are not modelled: test operator of the hook (sums its inputs); Add/Relu/Identity in the public-API run",
                     "hook rten::verif::planner::TestGraph::{run,partial_run} call Graph::run / Graph::partial_run, "
                     "which Model::run / Model::partial_run delegate to"]
     ctx.audit(GROUP)
@@ -48,6 +49,11 @@ def main(ctx):
     bindir = ctx.harness(GROUP, profile="release", bins=["c26"])
     cases = ctx.gen_exec(bindir, "c26", ctx.n(600, 12000), inputs=ctx.replay_inputs())
     ctx.correspond("run_request", GROUP, REQ, cases, show="show26", agree="agree26", prop_ok="prop_ok26",
-                   shard=ctx.n(150, 1200), fn_name="Planner.Validate.{run,partial_run} vs Graph::{run,partial_run}")
+                   shard=ctx.n(150, 400), fn_name="Planner.Validate.{run,partial_run} vs Graph::{run,partial_run}")
+    # the same model against the PUBLIC API: Model::load (hand-encoded ONNX bytes) + Model::run / partial_run
+    bindir = ctx.harness(GROUP, profile="release", bins=["c26m"])
+    cases_m = ctx.gen_exec(bindir, "c26m", ctx.n(150, 3000), inputs=ctx.replay_inputs())
+    ctx.correspond("model_run_public_api", GROUP, REQ, cases_m, show="show26", agree="agree26", prop_ok="prop_ok26",
+                   shard=ctx.n(150, 400), fn_name="Planner.Validate.{run,partial_run} vs Model::{run,partial_run}")
     if failed and not ctx.violations:
         ctx.proof_broken(failed, "all correspondence cases of this run")
